@@ -473,8 +473,8 @@ example :
     errOf (parseScript (["# header", "", "   \t"] ++ ["a = 1", "b = a +"]) 1) = some ⟨"Syntax error", "b = a +", 8, 5⟩ := by
   decide
 
-/-- the line `zz = 1` and the line `systemLog('m')` are simple valid statements -/
-theorem simple_examples : SimpleLine "zz = 1" ∧ SimpleLine "systemLog('m')" := by
+/-- the line `zz = 1` and the line `fn(zz, 2)` are simple valid statements -/
+theorem simple_examples : SimpleLine "zz = 1" ∧ SimpleLine "fn(zz, 2)" := by
   refine ⟨⟨by decide, by decide, by decide, ?_⟩, ⟨by decide, by decide, by decide, ?_⟩⟩
   · cases h : Scan.classify ExprParse.parseExpr "zz = 1" with
     | ok cl =>
@@ -486,20 +486,20 @@ theorem simple_examples : SimpleLine "zz = 1" ∧ SimpleLine "systemLog('m')" :=
       have : (match Scan.classify ExprParse.parseExpr "zz = 1" with | .ok cl => IsEmit cl | .error _ => false) = true := by
         decide
       rw [h] at this; cases this
-  · cases h : Scan.classify ExprParse.parseExpr "systemLog('m')" with
+  · cases h : Scan.classify ExprParse.parseExpr "fn(zz, 2)" with
     | ok cl =>
       refine ⟨cl, rfl, ?_⟩
-      have : (match Scan.classify ExprParse.parseExpr "systemLog('m')" with
+      have : (match Scan.classify ExprParse.parseExpr "fn(zz, 2)" with
           | .ok cl => IsEmit cl | .error _ => false) = true := by decide
       rw [h] at this; exact this
     | error e =>
-      have : (match Scan.classify ExprParse.parseExpr "systemLog('m')" with
+      have : (match Scan.classify ExprParse.parseExpr "fn(zz, 2)" with
           | .ok cl => IsEmit cl | .error _ => false) = true := by decide
       rw [h] at this; cases this
 
 /-- non-vacuity of `prepend_statements_shift`: two statements in front of a script with an unclosed `while` -/
 example : errOf (parseScript ["while a:", "b = 1"] 1) = some ⟨"Missing endwhile statement", "while a:", 1, 1⟩ ∧
-    errOf (parseScript (["zz = 1", "systemLog('m')"] ++ ["while a:", "b = 1"]) 1) =
+    errOf (parseScript (["zz = 1", "fn(zz, 2)"] ++ ["while a:", "b = 1"]) 1) =
       some ⟨"Missing endwhile statement", "while a:", 1, 3⟩ := by decide
 
 end C06
